@@ -18,6 +18,17 @@ Fixpoint steps_guarded (seen_chars seen_format : bool) (l : list istep) : bool :
   | _ :: r => steps_guarded seen_chars seen_format r
   end.
 
+(* with national validation requested, the national step too must come after the character and format checks *)
+Fixpoint steps_guarded_b (seen_chars seen_format : bool) (l : list istep) : bool :=
+  match l with
+  | [] => true
+  | SChars :: r => steps_guarded_b true seen_format r
+  | SFormat :: r => steps_guarded_b seen_chars true r
+  | SChecksum :: r => seen_chars && seen_format && steps_guarded_b seen_chars seen_format r
+  | SNational :: r => seen_chars && seen_format && steps_guarded_b seen_chars seen_format r
+  | _ :: r => steps_guarded_b seen_chars seen_format r
+  end.
+
 (* the character check forces two capitals and two ASCII digits at the start *)
 Definition chars_strict (cfg : iban_cfg) : bool :=
   match rp_body (ic_chars_pat cfg) with
@@ -198,6 +209,91 @@ Proof using WF EA CFG TAB GUARD CHARS STRICT.
                 (ic_steps cfg) false false GUARD ltac:(discriminate) ltac:(discriminate)) as H.
   destruct (run_steps e cfg T national false (clean e txt) (ic_steps cfg)) as [[]| |]; cbn [bind]; congruence.
 Qed.
+
+(* ---- with national validation ------------------------------------------------------------------------------------ *)
+(* once characters and format have passed, the text is country code, check digits and a BBAN that conforms to the
+   country's structure *)
+Lemma format_conforms s :
+  cleaned e s = true -> forallb (fun c => negb (is_ascii_lower c)) s = true ->
+  validate_characters cfg s = Ok tt -> validate_format e cfg T s = Ok tt ->
+  exists r, find_row T (iban_country_code s) = Some r /\ conforms_row r (iban_bban e s) = true.
+Proof using WF EA CFG TAB CHARS STRICT.
+  intros Hcl Hnl Hc Hf.
+  apply (chars_head s Hnl) in Hc. apply head_alpha in Hc as [H4 (c1 & c2 & d1 & d2 & b & ->)].
+  assert (Hb : cleaned e b = true) by (apply (cleaned_skipn e 4) in Hcl; exact Hcl).
+  assert (Hbban : iban_bban e (c1 :: c2 :: d1 :: d2 :: b) = b).
+  { unfold iban_bban. rewrite slice_bban. apply cleaned_fix. exact Hb. }
+  unfold validate_format, iban_spec in Hf. rewrite cc_of in Hf. rewrite cc_of, Hbban.
+  destruct (find_row T [c1; c2]) as [r|] eqn:Er; [|discriminate]. cbn [bind] in Hf.
+  exists r. split; [reflexivity|].
+  pose proof (row_ok_of cfg T TAB _ _ Er) as Hok. pose proof (row_strict_of _ _ Er) as Hst.
+  unfold row_strict in Hst.
+  destruct (runs_of (rp_body (r_regex r))) as [rs|] eqn:Ers; [|discriminate].
+  destruct (row_kinds r) as [kds|] eqn:Ek; [|discriminate].
+  rewrite Hbban, (format_iff e cfg T WF TAB r b rs Hok Hb Ers) in Hf.
+  destruct (conforms_cls (expand rs) b) eqn:Ecf; [|discriminate].
+  assert (Hnlb : forallb (fun c => negb (is_ascii_lower c)) b = true).
+  { change (c1 :: c2 :: d1 :: d2 :: b) with ([c1; c2; d1; d2] ++ b) in Hnl. apply no_lower_app in Hnl as [_ H]. exact H. }
+  rewrite (kinds_agree_conforms _ _ _ Hst Hnlb) in Ecf.
+  unfold conforms_row. rewrite Ek, Ecf, andb_true_r.
+  destruct (row_facts cfg T TAB _ r Er) as (_ & _ & kds' & _ & _ & _ & Hk' & _ & Hl & _).
+  rewrite Ek in Hk'. inversion Hk'; subst kds'. apply Z.eqb_eq. unfold len.
+  rewrite (Proofs.RunsFacts.conforms_length _ _ Ecf). exact Hl.
+Qed.
+
+Section WithNational.
+(* the national step raises no foreign exception on a structurally conforming BBAN of a known country *)
+Hypothesis NAT : forall cc r b c, find_row T cc = Some r -> conforms_row r b = true -> national cc b <> Crash c.
+
+Lemma run_steps_no_crash_b s c :
+  cleaned e s = true -> forallb (fun c => negb (is_ascii_lower c)) s = true ->
+  forall l sc sf,
+    steps_guarded_b sc sf l = true ->
+    (sc = true -> validate_characters cfg s = Ok tt) ->
+    (sf = true -> validate_format e cfg T s = Ok tt) ->
+    run_steps e cfg T national true s l <> Crash c.
+Proof using WF EA CFG TAB CHARS STRICT NAT.
+  intros Hcl Hnl. induction l as [|st l IH]; intros sc sf Hg Hc Hf; cbn [run_steps]; [discriminate|].
+  destruct st; cbn [steps_guarded_b] in Hg.
+  - cbn [run_step]. destruct (validate_characters cfg s) as [[]| |] eqn:E; cbn [bind].
+    + apply (IH true sf Hg); auto.
+    + discriminate.
+    + exfalso. revert E. unfold validate_characters. destruct (pat_apply _ _ _); discriminate.
+  - destruct (run_step e cfg T national true s SLength) as [[]| |] eqn:E; cbn [bind].
+    + apply (IH sc sf Hg); auto.
+    + discriminate.
+    + exfalso. cbn [run_step] in E. unfold validate_length, iban_spec in E.
+      repeat (match type of E with context [match ?x with _ => _ end] => destruct x; cbn [bind] in E end); discriminate.
+  - cbn [run_step]. destruct (validate_format e cfg T s) as [[]| |] eqn:E; cbn [bind].
+    + apply (IH sc true Hg); auto.
+    + discriminate.
+    + exfalso. unfold validate_format, iban_spec in E.
+      repeat (match type of E with context [match ?x with _ => _ end] => destruct x; cbn [bind] in E end); discriminate.
+  - apply andb_true_iff in Hg as [Hg Hr]. apply andb_true_iff in Hg as [-> ->].
+    cbn [run_step]. destruct (validate_iban_checksum e cfg s) as [[]|x|x] eqn:E; cbn [bind].
+    + apply (IH true true Hr); auto.
+    + discriminate.
+    + exfalso. exact (checksum_no_crash s x Hcl Hnl (Hc eq_refl) (Hf eq_refl) E).
+  - apply andb_true_iff in Hg as [Hg Hr]. apply andb_true_iff in Hg as [-> ->].
+    cbn [run_step].
+    destruct (format_conforms s Hcl Hnl (Hc eq_refl) (Hf eq_refl)) as (r & Er & Hconf).
+    destruct (national (iban_country_code s) (iban_bban e s)) as [v|x|x] eqn:E; cbn [bind].
+    + apply (IH true true Hr); auto.
+    + discriminate.
+    + exfalso. exact (NAT _ r _ x Er Hconf E).
+Qed.
+
+Theorem iban_total_b txt c :
+  steps_guarded_b false false (ic_steps cfg) = true ->
+  iban_new e cfg T national txt false true <> Crash c.
+Proof using WF EA CFG TAB CHARS STRICT NAT.
+  intro GUARDB. unfold iban_new, iban_validate. cbn [bind].
+  pose proof (run_steps_no_crash_b (clean e txt) c (clean_cleaned e WF txt) (clean_no_lower e WF txt)
+                (ic_steps cfg) false false GUARDB ltac:(discriminate) ltac:(discriminate)) as H.
+  destruct (run_steps e cfg T national true (clean e txt) (ic_steps cfg)) as [[]| |]; cbn [bind]; congruence.
+Qed.
+End WithNational.
+
 
 Theorem iban_is_valid_total txt :
   exists b, iban_is_valid e cfg T national (clean e txt) = Ok b
